@@ -79,9 +79,10 @@ Proof.
   intros Hne Hwf body Hlen. unfold tsm_index.
   assert (Hidx : (1 <= length (ser_index ks))%nat).
   { pose proof (ser_index_length ks). destruct ks; [congruence|cbn [length] in *; lia]. }
-  unfold body at 1. rewrite <- app_assoc. rewrite (take_app_n 5) by reflexivity. cbn [obind].
-  rewrite bytes_eqb_refl. cbn [negb]. rewrite app_assoc. fold body.
   set (file := body ++ ser_index ks ++ u64 (N.of_nat (length body))).
+  assert (Htake : take 5 file = Some (tsm_header, blocks ++ ser_index ks ++ u64 (N.of_nat (length body)))).
+  { unfold file, body. rewrite <- app_assoc. apply take_app_n. reflexivity. }
+  rewrite Htake. cbn [obind]. rewrite bytes_eqb_refl. cbn [negb].
   assert (Hfl : length file = (length body + length (ser_index ks) + 8)%nat).
   { unfold file. rewrite !app_length. unfold u64. rewrite be_length. lia. }
   destruct (Nat.ltb_spec (length file) 8) as [Hl|Hl]; [lia|].
@@ -110,4 +111,101 @@ Section TsmProofs.
     rewrite slice_app. unfold frame. rewrite (take_app_n 4) by apply be_length. cbn [obind].
     rewrite u32_rt by apply crc_u32. reflexivity.
   Qed.
+
+  (** ** the file layout for grouped input: per key a list of (min, max, block) *)
+  Definition blk := (Z * Z * bytes)%type.
+  Definition flen (b : blk) : N := N.of_nat (length (frame crc (snd b))).
+  Fixpoint ents_of (off : N) (bs : list blk) : list entry :=
+    match bs with
+    | [] => []
+    | b :: r => E (fst (fst b)) (snd (fst b)) off (flen b) :: ents_of (off + flen b) r
+    end.
+  Definition frames (bs : list blk) : bytes := flat_map (fun b => frame crc (snd b)) bs.
+  Definition typ_of (bs : list blk) : N := match bs with b :: _ => hd 0%N (snd b) | [] => 0%N end.
+  Fixpoint ikeys_of (off : N) (gs : list (key * list blk)) : list ikey :=
+    match gs with
+    | [] => []
+    | (k, bs) :: r => IK k (typ_of bs) (ents_of off bs) :: ikeys_of (off + N.of_nat (length (frames bs))) r
+    end.
+  Definition all_frames (gs : list (key * list blk)) : bytes := flat_map (fun g => frames (snd g)) gs.
+  Definition layout (gs : list (key * list blk)) : bytes :=
+    let body := tsm_header ++ all_frames gs in
+    body ++ ser_index (ikeys_of 5 gs) ++ u64 (N.of_nat (length body)).
+  (** what must be read back: key, type, and per block its entry, checksum and bytes *)
+  Definition expect_blocks (off : N) (bs : list blk) : list (entry * N * bytes) :=
+    combine (combine (ents_of off bs) (map (fun b => crc (snd b)) bs)) (map (fun b => snd b) bs).
+  Fixpoint expect (off : N) (gs : list (key * list blk)) : list (key * N * list (entry * N * bytes)) :=
+    match gs with
+    | [] => []
+    | (k, bs) :: r => (k, typ_of bs, expect_blocks off bs) :: expect (off + N.of_nat (length (frames bs))) r
+    end.
+
+  Lemma read_blocks_framed bs : forall pre post,
+    read_blocks (pre ++ frames bs ++ post) (ents_of (N.of_nat (length pre)) bs)
+    = Some (expect_blocks (N.of_nat (length pre)) bs).
+  Proof.
+    induction bs as [|b r IH]; intros pre post; [reflexivity|].
+    cbn [ents_of read_blocks frames flat_map]. fold (frames r). rewrite <- app_assoc.
+    rewrite read_block_framed by reflexivity. cbn [obind].
+    assert (E : (N.of_nat (length pre) + flen b)%N = N.of_nat (length (pre ++ frame crc (snd b)))).
+    { unfold flen. rewrite app_length, Nat2N.inj_add. reflexivity. }
+    rewrite E. replace (pre ++ frame crc (snd b) ++ frames r ++ post) with ((pre ++ frame crc (snd b)) ++ frames r ++ post)
+      by (rewrite <- app_assoc; reflexivity).
+    rewrite IH. cbn [obind]. unfold expect_blocks. cbn [ents_of map combine]. rewrite E. reflexivity.
+  Qed.
+
+  Lemma read_keys_framed gs : forall pre post,
+    read_keys (pre ++ all_frames gs ++ post) (ikeys_of (N.of_nat (length pre)) gs)
+    = Some (expect (N.of_nat (length pre)) gs).
+  Proof.
+    induction gs as [|[k bs] r IH]; intros pre post; [reflexivity|].
+    cbn [ikeys_of read_keys all_frames flat_map snd ik_ents ik_key ik_typ expect]. fold (all_frames r).
+    rewrite <- app_assoc. rewrite read_blocks_framed. cbn [obind].
+    assert (E : (N.of_nat (length pre) + N.of_nat (length (frames bs)))%N = N.of_nat (length (pre ++ frames bs))).
+    { rewrite app_length, Nat2N.inj_add. reflexivity. }
+    rewrite E. replace (pre ++ frames bs ++ all_frames r ++ post) with ((pre ++ frames bs) ++ all_frames r ++ post)
+      by (rewrite <- app_assoc; reflexivity).
+    rewrite IH. reflexivity.
+  Qed.
+
+  (** reader after layout = identity: keys, types, index entries, checksums and block bytes *)
+  Lemma tsm_read_layout gs : gs <> [] -> Forall wf_ikey (ikeys_of 5 gs) ->
+    (N.of_nat (length (tsm_header ++ all_frames gs)) < 18446744073709551616)%N ->
+    tsm_read (layout gs) = Some (expect 5 gs).
+  Proof.
+    intros Hne Hwf Hlen. unfold tsm_read, layout. cbv zeta.
+    rewrite tsm_index_framed; auto.
+    - cbn [obind]. rewrite <- app_assoc.
+      exact (read_keys_framed gs tsm_header (ser_index (ikeys_of 5 gs) ++ u64 (N.of_nat (length (tsm_header ++ all_frames gs))))).
+    - destruct gs as [|[k bs] r]; [congruence|discriminate].
+  Qed.
 End TsmProofs.
+
+(** ** the writer's limits *)
+Lemma write_block_key_too_long crc s k mn mx b :
+  (65535 < N.of_nat (length k))%N -> write_block crc s k mn mx b = (s, 1%N).
+Proof.
+  intro H. unfold write_block, key_too_long, max_key_len.
+  destruct (N.ltb_spec 65535 (N.of_nat (length k))); [reflexivity|lia].
+Qed.
+
+Lemma write_block_empty crc s k mn mx :
+  (N.of_nat (length k) <= 65535)%N -> write_block crc s k mn mx [] = (s, 0%N).
+Proof.
+  intro H. unfold write_block, key_too_long, max_key_len.
+  destruct (N.ltb_spec 65535 (N.of_nat (length k))); [lia|reflexivity].
+Qed.
+
+Lemma write_index_no_values s : w_cnt s = 0%N -> write_index s = None.
+Proof. intro H. unfold write_index. rewrite H. reflexivity. Qed.
+
+Lemma flush_limit s : w_key s <> [] ->
+  (w_fail (flush s) = true <-> w_fail s = true \/ (65535 < N.of_nat (length (w_ents s)))%N).
+Proof.
+  intro Hk. unfold flush, max_entries. destruct (w_key s) eqn:E; [congruence|].
+  destruct (N.ltb_spec 65535 (N.of_nat (length (w_ents s)))); cbn [w_fail]; split; auto; try tauto.
+  intros [A|A]; [exact A|lia].
+Qed.
+
+Lemma status_after_spec cnt : status_after cnt = if (65535 <=? cnt)%N then 2%N else 0%N.
+Proof. reflexivity. Qed.
